@@ -521,6 +521,28 @@ def expand_flag_edges(flow, edges, depth: int = 0) -> set:
     out = set(edges)
     if depth > 2:
         return out
+    # a *mode* variable: every definition that reaches the test assigns a constant (a literal, an enum member, a module
+    # constant); `if mode is K:` then runs only where the definitions that assign K are - and its false arm only where the others are
+    for b, lab in list(edges):
+        t = b.ast if b.kind == "test" else None
+        if not (isinstance(t, ast.Compare) and len(t.ops) == 1 and isinstance(t.ops[0], (ast.Is, ast.IsNot, ast.Eq, ast.NotEq)) and lab in ("T", "F")
+                and isinstance(t.left, ast.Name) and isinstance(t.comparators[0], (ast.Constant, ast.Attribute, ast.Name))):
+            continue
+        ds = flow.reaching(b, t.left.id)
+        if len(ds) < 2 or any(d.kind != "assign" or not isinstance(d.value, (ast.Constant, ast.Attribute, ast.Name)) for d in ds):
+            continue
+        if any(isinstance(d.value, ast.Name) and d.value.id in flow.defs_of_var for d in ds):
+            continue  # (a local, not a constant)
+        k = ast.unparse(t.comparators[0])
+        positive = isinstance(t.ops[0], (ast.Is, ast.Eq)) == (lab == "T")
+        live = [d for d in ds if (ast.unparse(d.value) == k) == positive]
+        if not live:
+            continue
+        common = None
+        for d in live:
+            es = expand_flag_edges(flow, _must(flow.cfg, flow.cfg.entry, d.node) or set(), depth + 1)
+            common = es if common is None else (common & es)
+        out |= common or set()
     for b, lab in list(edges):
         if b.kind != "test" or lab != "T" or not isinstance(b.ast, ast.Name):
             continue
